@@ -125,7 +125,10 @@ def r19_3(ctx):
         if ps.startswith("TsLitType("):
             r.ob("string literal type -> its value", ".value" in body, C.mloc(su, a), body[:80])
         elif "TsUnionType" in ps:
-            ok = ".fold(" in body and su["name"] in body and ("push(" in body) and "rev()" not in body
+            # fold / for loop / flat_map over the members, each resolved recursively and appended in iteration order
+            iterates = ".fold(" in body or "loop match next(" in body or ".flat_map(" in body or ".for_each(" in body
+            appends = "push(" in body or "extend(" in body or ".flat_map(" in body
+            ok = iterates and (su["name"] + "(") in body and appends and "rev()" not in body and ".insert(0" not in body
             r.ob("union -> members in order (recursively)", ok, C.mloc(su, a), body[:120])
         elif ps.startswith("TsTypeRef("):
             ok = "type_aliases.get(" in body and body.count("span_err") >= 2
